@@ -136,33 +136,41 @@ def trimRight (l : List Char) : List Char := (l.reverse.dropWhile Char.isWhitesp
 def endsWith (l suf : List Char) : Bool := l.reverse.take suf.length == suf.reverse
 def startsWith (l pre : List Char) : Bool := l.take pre.length == pre
 
+/-- `!` and a leading `/` (or an escaped `\\!` / `\\#`): (is a negation, is anchored, the rest) -/
+def linePrefix (line : List Char) : Bool × Bool × List Char :=
+  if startsWith line ['\\', '!'] || startsWith line ['\\', '#'] then
+    let l := line.drop 1
+    (false, l.head? == some '/', l)
+  else
+    let wl := startsWith line ['!']
+    let l := if wl then line.drop 1 else line
+    let abs := startsWith l ['/']
+    (wl, abs, if abs then l.drop 1 else l)
+
+/-- a trailing `/`: (matches directories only, the rest) -/
+def lineDir (line : List Char) : Bool × List Char :=
+  if line.getLast? == some '/' then
+    let l := line.dropLast
+    (true, if l.getLast? == some '\\' then l.dropLast else l)
+  else (false, line)
+
+/-- the glob text handed to the parser: a slash-free unanchored pattern gets `**/` in front, a trailing `/**` becomes `/**/*` -/
+def lineGlob (abs : Bool) (line : List Char) : List Char :=
+  let actual :=
+    if !abs && !line.any (· == '/') then
+      if startsWith line ['*','*','/'] || line == ['*','*'] then line else ['*','*','/'] ++ line
+    else line
+  if endsWith actual ['/','*','*'] then actual ++ ['/','*'] else actual
+
 /-- GitignoreBuilder::add_line; `none` = line skipped (comment/empty), `some none` = glob error -/
 def addLine (line : List Char) : Option (Option GGlob) :=
   if startsWith line ['#'] then none else
   let line := if endsWith line ['\\', ' '] then line else trimRight line
   if line.isEmpty then none else
-  let original := line
-  let (wl, abs, line) :=
-    if startsWith line ['\\', '!'] || startsWith line ['\\', '#'] then
-      let l := line.drop 1
-      (false, l.head? == some '/', l)
-    else
-      let (wl, l) := if startsWith line ['!'] then (true, line.drop 1) else (false, line)
-      let (abs, l) := if startsWith l ['/'] then (true, l.drop 1) else (false, l)
-      (wl, abs, l)
-  let (onlyDir, line) :=
-    if line.getLast? == some '/' then
-      let l := line.dropLast
-      let l := if l.getLast? == some '\\' then l.dropLast else l
-      (true, l)
-    else (false, line)
-  let actual :=
-    if !abs && !line.any (· == '/') then
-      if startsWith line ['*','*','/'] || line == ['*','*'] then line else ['*','*','/'] ++ line
-    else line
-  let actual := if endsWith actual ['/','*','*'] then actual ++ ['/','*'] else actual
-  match parse actual with
-  | some toks => some (some ⟨original, toks, wl, onlyDir⟩)
+  let pre := linePrefix line
+  let dir := lineDir pre.2.2
+  match parse (lineGlob pre.2.1 dir.2) with
+  | some toks => some (some ⟨line, toks, pre.1, dir.1⟩)
   | none => some none
 
 inductive M where | none | ignore (i : Nat) | whitelist (i : Nat) deriving Repr, DecidableEq
